@@ -7,7 +7,7 @@ from align import Inst
 from common import rng_for, run_model, coq_eval, w_list, w_tuple
 
 RULE = ("continua from VERIF_SEED: 2..5 annotators, sizes 0..k incl. empty annotators, patterns perturbed/random/identical/nested/disjoint/"
-        "samelabel, ~20% fully unlabelled, every built-in dissimilarity with alpha,beta in {0,.5,1,3}, delta_empty in {.25,.5,1,2}, "
+        "samelabel/intgrid, ~10% fully unlabelled and ~10% mixing labelled and unlabelled units, every built-in dissimilarity with alpha,beta in {0,.5,1,3}, delta_empty in {.25,.5,1,2}, "
         "back-end alternating CBC / GLPK (cylp masked); non-trivial = >= 2 annotators with units and at least one candidate with "
         "two real units; distinct by (units, dissimilarity, back-end). build_A is compared entry by entry with the model's rows.")
 TRUSTED_BASE = ["Coq 8.16.1 kernel; vm_compute for the extraction cross-check", "extraction (ExtrOcamlBasic only), ocaml/driver.ml",
@@ -33,18 +33,14 @@ def run(rep, tier, seed, pa):
     ac.install_backend_hooks()
     rng = rng_for(seed, "C01")
     cases = ac.random_cases(rng, 240 if tier == "quick" else 3000, tier)
-    items = []
-    for k, case in enumerate(cases):
-        mode = "cbc" if k % 2 == 0 else "glpk-noimport"
-        res = ac.align_case(pa, case, mode)
-        res["mode"] = mode
-        items.append((case, res))
+    results = ac.align_many(pa, [(case, "cbc" if k % 2 == 0 else "glpk-noimport", False) for k, case in enumerate(cases)])
+    items = list(zip(cases, results))
     facts = ac.judge_many(rep, items, part=True, want_optimal=False)
     for (case, res), f in zip(items, facts):
         I = res.get("I")
         rep.count("backend=" + res["mode"])
         rep.count("pattern=" + case["pattern"])
-        rep.count("unlabelled" if case["unlabelled"] else "labelled")
+        rep.count("labels=" + ("none" if case["unlabelled"] is True else "mixed" if case["unlabelled"] else "all"))
         rep.count("kind=" + case["spec"][0])
         if I is not None:
             rep.count("n=%d" % I.n)
